@@ -213,6 +213,20 @@ class Script:
         return False
 
 
+class _UserError(Exception):
+    """an application's own exception type, with arguments that are not text"""
+
+
+def callback_failure(n: int, text: str) -> Exception:
+    """The exceptions user callbacks raise in practice: with text, without any (asyncio's own TimeoutError() and QueueFull(), a bare
+    `raise ValueError`, a failed assert), with text of several lines or with formatting characters, with non-text arguments."""
+    kinds = (lambda: RuntimeError(text), lambda: TimeoutError(), lambda: ValueError(), lambda: asyncio.QueueFull(),
+             lambda: KeyError("missing"), lambda: AssertionError(), lambda: RuntimeError(text + "\nsecond line {0} %s %(x)s"),
+             lambda: OSError(5, "input/output error"), lambda: _UserError(3, None, b"\xff"), lambda: RuntimeError("\n"),
+             lambda: LookupError(""), lambda: StopAsyncIteration())
+    return kinds[(n // 2) % len(kinds)]()
+
+
 class Session:
     def __init__(self, script: Script | None = None):
         self.loop = VLoop()
@@ -320,7 +334,8 @@ class Session:
                 await asyncio.sleep(0.3)
             elif status_cb == "raise":
                 self.ev("StatusDone", r="raised")
-                raise RuntimeError("status callback failed")
+                self.n_status_raised = getattr(self, "n_status_raised", 0) + 1
+                raise callback_failure(self.n_status_raised, "status callback failed")
             self.ev("StatusDone", r="ok")
 
         async def receive(msg):
@@ -332,11 +347,11 @@ class Session:
                 if how == "slow":
                     await asyncio.sleep(0.25)
                 elif how == "raise":
-                    raise RuntimeError("receive callback failed")
+                    raise callback_failure(n, "receive callback failed")
             except asyncio.CancelledError:
                 self.ev("DeliverDone", i=n, r="cancelled")
                 raise
-            except RuntimeError:
+            except Exception:
                 self.ev("DeliverDone", i=n, r="raised")
                 raise
             self.ev("DeliverDone", i=n, r="ok")
